@@ -108,6 +108,11 @@ def length_sources(ctx, f, expr, depth=0, seen=None):
         s1, f1 = length_sources(ctx, f, expr.body, depth, seen)
         s2, f2 = length_sources(ctx, f, expr.orelse, depth, seen)
         return s1 | s2, f1 + f2 + [expr.test]
+    if isinstance(expr, ast.BinOp) and isinstance(
+            expr.op, (ast.FloorDiv, ast.Div)):
+        # a quotient by a length is a carry (a count of the next unit), not
+        # a bound of the field it is added to
+        return set(), feeds
     if isinstance(expr, ast.BinOp):
         # e.g. CALENDAR.HOURS_IN_DAY - 1
         s1, f1 = length_sources(ctx, f, expr.left, depth, seen)
